@@ -1,7 +1,7 @@
 (* C20 -- non-vacuity: concrete reachable states meet the hypotheses of the theorems,
    and the model does what one expects on concrete histories (tests, by vm_compute). *)
 From Coq Require Import List Arith Bool Lia.
-From Verif.C20 Require Import Model Proofs.
+From Verif.C20 Require Import Model Proofs Faults.
 Import ListNotations.
 
 (* three processes on two forms, interleaved; 0 is killed while linking, 1 while Cython writes the .c *)
@@ -88,3 +88,55 @@ Proof. vm_compute. reflexivity. Qed.
 Example ex_cold_start_solo :
   outcome_of (solo NewCC orc_ref FUEL (step NewCC orc_ref init (Spawn 0 0)) 0) 0 = Some (Ok 0).
 Proof. vm_compute. reflexivity. Qed.
+
+(* ---- fault histories (Faults.v): a concrete history meets the hypotheses of recovery_after_faults ---- *)
+(* session 1: process 0 builds form 0 completely; fault: every .so emptied; fault: clear-cache.py;
+   session 2: process 1 builds form 1 and is killed in the link; fault: every .o replaced by garbage *)
+Definition ex_s1 : list label := Spawn 0 0 :: repeat (Step 0) 28.
+Definition ex_s2 : list label := Spawn 1 1 :: repeat (Step 1) 20 ++ [Kill 1].
+Definition ex_hist : list hitem :=
+  [HRun ex_s1; HFault (FDmg So (Some Empty)); HFault FClear; HRun ex_s2; HFault (FDmg Obj (Some Garbage))].
+Definition ex_hist_end : state :=
+  apply_fault (run New orc_ref ex_s2 (apply_fault (apply_fault (run New orc_ref ex_s1 init)
+     (FDmg So (Some Empty))) FClear)) (FDmg Obj (Some Garbage)).
+
+Lemma ex_quiescent_2 st :
+  (forall p, 2 <= p -> procs st p = None) ->
+  (forall q, procs st 0 = Some q -> is_done (ppc q) = true) ->
+  (forall q, procs st 1 = Some q -> is_done (ppc q) = true) -> quiescent st.
+Proof.
+  intros H2 H0 H1 [|[|p]] q HP; auto. rewrite H2 in HP by lia. discriminate.
+Qed.
+
+Example ex_hist_ok : hist orc_ref init ex_hist ex_hist_end.
+Proof.
+  unfold ex_hist, ex_hist_end.
+  apply h_run. apply h_fault.
+  { apply ex_quiescent_2; [intros p Hp; destruct p as [|[|p]]; [lia|lia|reflexivity]| |];
+      intros q H; vm_compute in H; inversion H; reflexivity || discriminate. }
+  { simpl. discriminate. }
+  apply h_fault.
+  { apply ex_quiescent_2; [intros p Hp; destruct p as [|[|p]]; [lia|lia|reflexivity]| |];
+      intros q H; vm_compute in H; inversion H; reflexivity || discriminate. }
+  { exact I. }
+  apply h_run. apply h_fault.
+  { apply ex_quiescent_2; [intros p Hp; destruct p as [|[|p]]; [lia|lia|reflexivity]| |];
+      intros q H; vm_compute in H; inversion H; reflexivity || discriminate. }
+  { exact I. }
+  apply h_nil.
+Qed.
+(* the history is not trivial: after it the cache holds no entry, one dead build directory with a damaged .o *)
+Example ex_hist_state :
+  files ex_hist_end (Final So 0) = Absent /\ files ex_hist_end (Final So 1) = Absent /\
+  files ex_hist_end (Tmp 1 Obj) = Partial Garbage 1 /\ files ex_hist_end (Tmp 1 So) = Partial Header 1 /\
+  outcome_of ex_hist_end 0 = Some (Ok 0) /\ outcome_of ex_hist_end 1 = Some Killed /\ procs ex_hist_end 2 = None.
+Proof. vm_compute. auto 8. Qed.
+(* the conclusion of recovery_after_faults, computed *)
+Example ex_hist_recovers :
+  outcome_of (solo New orc_ref FUEL (step New orc_ref ex_hist_end (Spawn 2 0)) 2) 2 = Some (Ok 0).
+Proof. vm_compute. reflexivity. Qed.
+(* hypothesis of crash_class_kills / the excluded fault: a finished entry cut to its header *)
+Example ex_crash_class :
+  let st := apply_fault (run New orc_ref ex_s1 init) (FDmg So (Some Header)) in
+  files st (Final So 0) = Partial Header 0 /\ orc_ref Header = Crash /\ ~ safe_fault orc_ref (FDmg So (Some Header)).
+Proof. vm_compute. repeat split. intros H. apply H. reflexivity. Qed.
